@@ -135,28 +135,47 @@ Definition sort_pairs (l : list (Z * Z)) : list (Z * Z) := fold_right ins_pair [
 
 Definition pair_eqb (a b : Z * Z) : bool := (fst a =? fst b) && (snd a =? snd b).
 
-Definition check_probe (z : zset) (st : list entry) (p : probe) : verdict :=
+(* the property on a probe: the node chain is the reference ranking and the table is the
+   reference table; the correspondence: chain/table equal the model's, lanes consistent *)
+Definition probe_prop (st : list entry) (p : probe) : verdict :=
   let chain := map (fun n => (p_score n, p_member n)) (pr_nodes p) in
   vjoin (check_that (list_eqb pair_eqb chain (ranking st)) (VPropFail 11))
- (vjoin (check_that (list_eqb pair_eqb (pr_dict p) (sort_pairs (map (fun x => (member x, score x)) st))) (VPropFail 12))
- (vjoin (check_that (list_eqb pair_eqb chain (zsl z)) (VMismatch 11))
- (vjoin (check_that (list_eqb pair_eqb (pr_dict p) (sort_pairs (dict z))) (VMismatch 12))
-        (check_that (structure_ok p) (VMismatch 13))))).
+        (check_that (list_eqb pair_eqb (pr_dict p) (sort_pairs (map (fun x => (member x, score x)) st))) (VPropFail 12)).
 
-Fixpoint walk_history (z : zset) (st : list entry) (its : list item) (rs : list obs) : verdict :=
+Definition probe_corr (z : zset) (p : probe) : verdict :=
+  let chain := map (fun n => (p_score n, p_member n)) (pr_nodes p) in
+  vjoin (check_that (list_eqb pair_eqb chain (zsl z)) (VMismatch 11))
+ (vjoin (check_that (list_eqb pair_eqb (pr_dict p) (sort_pairs (dict z))) (VMismatch 12))
+        (check_that (structure_ok p) (VMismatch 13))).
+
+(* the reference is compared at every step; the model until its first mismatch, which is
+   remembered in [first] while the walk goes on looking for a property failure *)
+Fixpoint walk_history (first : verdict) (live : bool) (z : zset) (st : list entry)
+         (its : list item) (rs : list obs) : verdict :=
   match its, rs with
-  | [], [] => VOk
+  | [], [] => first
   | IOp o :: its', ROut r :: rs' =>
-      let '(z1, mo) := step z o in
       let '(st1, so) := spec_step st o in
-      match vjoin (check_that (out_eqb so r) (VPropFail (sentence o)))
-                  (check_that (out_eqb mo r) (VMismatch (sentence o))) with
-      | VOk => walk_history z1 st1 its' rs'
+      match check_that (out_eqb so r) (VPropFail (sentence o)) with
+      | VOk =>
+          if live then
+            let '(z1, mo) := step z o in
+            match check_that (out_eqb mo r) (VMismatch (sentence o)) with
+            | VOk => walk_history first true z1 st1 its' rs'
+            | v => walk_history v false z1 st1 its' rs'
+            end
+          else walk_history first false z st1 its' rs'
       | v => v
       end
   | IProbe :: its', RProbe p :: rs' =>
-      match check_probe z st p with
-      | VOk => walk_history z st its' rs'
+      match probe_prop st p with
+      | VOk =>
+          if live then
+            match probe_corr z p with
+            | VOk => walk_history first true z st its' rs'
+            | v => walk_history v false z st its' rs'
+            end
+          else walk_history first false z st its' rs'
       | v => v
       end
   | _, _ => VBad
@@ -166,7 +185,7 @@ Definition check (c : sx) : verdict :=
   match c with
   | SList [SList [SInt _; SList ops]; SList rs] =>
       match map_opt dec_item ops, map_opt dec_obs rs with
-      | Some its, Some rs => walk_history empty [] its rs
+      | Some its, Some rs => walk_history VOk true empty [] its rs
       | _, _ => VBad
       end
   | _ => VBad
